@@ -149,23 +149,54 @@ func (c *crasher) snap(i int64, opdesc, cls string) {
 	if max <= 0 {
 		max = 300
 	}
-	lo, cands := c.r.Candidates()
+	// The image is taken on whatever goroutine performs the FS operation while
+	// the foreground keeps running: the permitted states are captured before
+	// AND after cloning and merged (the durable lower bound and format version
+	// lower bound from before; every version committed or pending up to the
+	// second capture), so that they cover whatever the clone can contain.
+	lo, before := c.r.Candidates()
+	fmvLo, fmvHi0 := c.r.fmvBounds()
 	c.mu.Lock()
 	defer c.mu.Unlock()
 	if c.classes == nil {
 		c.classes = map[string]int{}
 	}
+	var imgs []*crashImage
 	for _, sv := range c.cp.Surv {
 		if c.taken >= max {
-			return
+			break
 		}
 		keep, cnt := keepFn(sv, i)
-		img := &crashImage{fs: c.mem.VerifCrashClone(keep), idx: i, op: opdesc, surv: sv, step: c.r.stepIdx, lo: lo, cands: cands}
+		img := &crashImage{fs: c.mem.VerifCrashClone(keep), idx: i, op: opdesc, surv: sv, step: c.r.stepIdx, lo: lo}
 		img.nAsked, img.nKept = cnt[0], cnt[1]
-		img.fmvLo, img.fmvHi = c.r.fmvBounds()
-		c.images = append(c.images, img)
+		imgs = append(imgs, img)
 		c.taken++
 		c.classes[cls]++
+	}
+	if len(imgs) == 0 {
+		return
+	}
+	cands := c.r.candidatesFrom(lo)
+	for _, b := range before {
+		found := false
+		for _, x := range cands {
+			if x == b {
+				found = true
+				break
+			}
+		}
+		if !found {
+			cands = append(cands, b)
+		}
+	}
+	_, fmvHi1 := c.r.fmvBounds()
+	for _, img := range imgs {
+		img.cands = cands
+		img.fmvLo, img.fmvHi = fmvLo, fmvHi0
+		if fmvHi1 > img.fmvHi {
+			img.fmvHi = fmvHi1
+		}
+		c.images = append(c.images, img)
 	}
 }
 
